@@ -1161,16 +1161,28 @@ def joinVal (x other : GoVal) : Option Rat :=
   | .flt _ q, .flt _ _ => some q
   | _, _ => none
 
+def isFltV : GoVal → Bool
+  | .flt _ _ => true
+  | _ => false
+
 /-- integers hold values of their kind (an unsigned kind no negative value) -/
-def numOK : GoVal → Prop
-  | .int k n => intOK k n
-  | _ => True
+def numOK (x : GoVal) : Prop :=
+  (match x with
+   | .int k n => k.isSigned || decide (0 ≤ n)
+   | _ => true) = true
 
 /-- an integer compared with a float is within the range `float64` represents exactly -/
 def numExact (x other : GoVal) : Prop :=
-  match x, other with
-  | .int _ n, .flt _ _ => n.natAbs ≤ 2 ^ 53
-  | _, _ => True
+  (match x with
+   | .int _ n => !isFltV other || decide (n.natAbs ≤ 2 ^ 53)
+   | _ => true) = true
+
+instance (x : GoVal) : Decidable (numOK x) := by unfold numOK; infer_instance
+instance (x y : GoVal) : Decidable (numExact x y) := by unfold numExact; infer_instance
+
+theorem intOK_of_numOK {k n} (h : numOK (.int k n)) : intOK k n := by
+  intro hk
+  simpa [numOK, hk] using h
 
 theorem f64OfInt_exact {n : Int} (h : n.natAbs ≤ 2 ^ 53) : f64OfInt n = n := by
   unfold f64OfInt roundF64Nat
@@ -1180,7 +1192,7 @@ theorem f64OfInt_exact {n : Int} (h : n.natAbs ≤ 2 ^ 53) : f64OfInt n = n := b
 theorem joinVal_exact {x y : GoVal} {q : Rat} (h : numVal x = some q) (hy : (numVal y).isSome = true)
     (he : numExact x y) : joinVal x y = some q := by
   cases x <;> simp [numVal] at h <;> cases y <;> simp [numVal] at hy <;>
-    simp_all [joinVal, numExact, f64OfInt_exact]
+    simp_all [joinVal, numExact, f64OfInt_exact, isFltV]
 
 theorem compare_eq_iff_int (n m : Int) : (compare n m == Ordering.eq) = decide ((n : Rat) = (m : Rat)) := by
   rw [Bool.eq_iff_iff]; simp [Int.compare_eq_eq]
@@ -1196,7 +1208,7 @@ theorem equalTL_num {x y : GoVal} {p q : Rat} (hx : joinVal x y = some p) (hy : 
   cases x <;> simp [joinVal] at hx <;> cases y <;> simp [joinVal] at hy hx <;> subst hx <;> subst hy <;>
     simp only [equalTL, equalBody, rkind, joinKind_int_int, joinKind_flt_flt, joinKind_int_flt, joinKind_flt_int] <;>
     first
-      | simp [GoVal.isNil, rFloat64, cmpIntSpec_eq_compare ox oy, compare_eq_iff_int]
+      | simp [GoVal.isNil, rFloat64, cmpIntSpec_eq_compare (intOK_of_numOK ox) (intOK_of_numOK oy), compare_eq_iff_int]
       | simp [GoVal.isNil, rFloat64, rat_beq]
 
 theorem lessTL_num {x y : GoVal} {p q : Rat} (hx : joinVal x y = some p) (hy : joinVal y x = some q)
@@ -1204,7 +1216,7 @@ theorem lessTL_num {x y : GoVal} {p q : Rat} (hx : joinVal x y = some p) (hy : j
   cases x <;> simp [joinVal] at hx <;> cases y <;> simp [joinVal] at hy hx <;> subst hx <;> subst hy <;>
     simp only [lessTL, rkind, joinKind_int_int, joinKind_flt_flt, joinKind_int_flt, joinKind_flt_int] <;>
     first
-      | simp [GoVal.isNil, rFloat64, cmpIntSpec_eq_compare ox oy, compare_lt_iff_int]
+      | simp [GoVal.isNil, rFloat64, cmpIntSpec_eq_compare (intOK_of_numOK ox) (intOK_of_numOK oy), compare_lt_iff_int]
       | simp [GoVal.isNil, rFloat64]
 
 theorem lessTL_str (s t : Bytes) : lessTL (.str s) (.str t) = .ok (decide (s < t)) := by
